@@ -20,14 +20,14 @@ type timeT = time.Time
 // Profile weights the operation alphabet of a case.
 type Profile struct {
 	Send, Recv, RecvDup, Ack, AckDup, Timeout, TimeoutEarly, TimeoutReceived, RecvAfterTimeout int
-	Replay, Mutate, AsyncAck, Commit, Close, OutOfOrder                                       int
+	Replay, Mutate, AsyncAck, Commit, Close, OutOfOrder, Redirect, Boundary                   int
 	SoonPct                                                                                    int // % of sends with a soon-expiring timeout
 	MultiPayloadPct                                                                            int
 }
 
 func DefaultProfile() Profile {
 	return Profile{Send: 20, Recv: 14, RecvDup: 6, Ack: 10, AckDup: 5, Timeout: 6, TimeoutEarly: 3, TimeoutReceived: 3, RecvAfterTimeout: 3,
-		Replay: 8, Mutate: 12, AsyncAck: 4, Commit: 3, Close: 0, OutOfOrder: 3, SoonPct: 35, MultiPayloadPct: 30}
+		Replay: 8, Mutate: 12, AsyncAck: 4, Commit: 3, Close: 0, OutOfOrder: 3, Redirect: 3, Boundary: 4, SoonPct: 35, MultiPayloadPct: 30}
 }
 
 func (s *Sim) pick(f func(p *Pkt) bool) *Pkt {
@@ -239,6 +239,8 @@ func (s *Sim) Step(pr Profile) string {
 			return "commit"
 		}},
 		{pr.Close, func() string { return s.closeOp() }},
+		{pr.Redirect, func() string { return s.redirectOp() }},
+		{pr.Boundary, func() string { return s.boundaryOp() }},
 	}
 	total := 0
 	for _, o := range ops {
@@ -322,6 +324,86 @@ func (s *Sim) closeOp() string {
 		return "close-toc-" + okStr(o)
 	}
 	return "close"
+}
+
+// redirectOp presents a packet really committed on one v1 channel to the destination end of ANOTHER channel of the
+// same port (valid proof of the real commitment, packet unchanged except for the destination identifiers).
+func (s *Sim) redirectOp() string {
+	q := s.pick(func(q *Pkt) bool { return !q.L.V2 && !q.received() && !q.terminal() && !s.elapsedOnDst(q) })
+	if q == nil {
+		return ""
+	}
+	var other *Lane
+	for _, l := range s.Lanes {
+		if l != q.L && !l.V2 && l.port(q.dst()) == q.L.port(q.dst()) && s.laneOpen(l) {
+			other = l
+		}
+	}
+	if other == nil {
+		return ""
+	}
+	// the proof is verified through the client of the channel the message names: bring that one up to date last
+	if err := s.update(q.L, q.dst()); err != nil {
+		return ""
+	}
+	if err := s.update(other, q.dst()); err != nil {
+		return ""
+	}
+	msg := s.BuildRecv(q, 0, s.addr(q.dst())).(*channeltypes.MsgRecvPacket)
+	msg.Packet.DestinationChannel = other.id(q.dst())
+	o := s.Relay(q.dst(), msg, &opMeta{kind: "recv", pkt: q, hostile: "redirect-to-" + other.Name})
+	s.C.Inc("redirects")
+	return "redirect-" + okStr(o)
+}
+
+// boundaryOp relays a receive so that it executes exactly at (or one block before) the packet's timeout height / time.
+func (s *Sim) boundaryOp() string {
+	p := s.pick(func(p *Pkt) bool { return !p.received() && !p.terminal() && s.isOrderedHead(p) && !s.elapsedOnDst(p) && s.soon(p) })
+	if p == nil {
+		return ""
+	}
+	d := s.Ch[p.dst()]
+	at := s.R.Bool() // true: execute exactly at the timeout (must be refused); false: one block before (must be accepted)
+	// the receive executes two destination blocks from now (client update, then the receive itself)
+	if !p.L.V2 && !p.V1.TimeoutHeight.IsZero() {
+		target := int64(p.V1.TimeoutHeight.RevisionHeight)
+		if !at {
+			target--
+		}
+		for d.App.LastBlockHeight()+2 < target {
+			d.Commit()
+		}
+		if d.App.LastBlockHeight()+2 != target {
+			return ""
+		}
+	} else {
+		var ts int64 // seconds
+		if p.L.V2 {
+			ts = int64(p.V2.TimeoutTimestamp)
+		} else {
+			ts = int64(p.V1.TimeoutTimestamp / 1_000_000_000)
+		}
+		target := ts
+		if !at {
+			target -= 5
+		}
+		for s.W.Coord.CurrentTime.Unix()+10 < target {
+			d.Commit()
+		}
+		if s.W.Coord.CurrentTime.Unix()+10 != target {
+			return ""
+		}
+	}
+	if err := s.update(p.L, p.dst()); err != nil {
+		return ""
+	}
+	label := "just-before-timeout"
+	if at {
+		label = "exactly-at-timeout"
+	}
+	o := s.Relay(p.dst(), s.BuildRecv(p, 0, s.addr(p.dst())), &opMeta{kind: "recv", pkt: p, hostile: label})
+	s.C.Inc("boundary_" + label + "_" + okStr(o))
+	return "boundary-" + label + "-" + okStr(o)
 }
 
 // mutateOp builds a fresh, valid packet message and alters one or more fields.
